@@ -462,7 +462,7 @@ def all_programs(tier, seed):
     rnd = random.Random(seed)
     progs = operator_table() + precedence_table() + control_table() + optimizer_table() + match_table() + string_table() + status_table() + function_table() + special_numbers_table()
     g = Gen(rnd)
-    for _ in range(600 if tier == "quick" else 12000):
+    for _ in range(600 if tier == "quick" else 8000):
         progs.append(g.program())
     for i, p in enumerate(progs):
         p["id"] = i
